@@ -15,7 +15,7 @@ CHECKS = {
          "Go race detector (no false positives; complete only for the explored synchronisation orders); bounds: <=3 threads, <=2 calls each, preemption bound 2/1 quick, 3/2 thorough; reflective dump of the Broker's private state as the state-equality oracle.",
          "DESIGN.md §3 C04"),
  "C01": ("stateless model checking of the real Send fan-out under a controlled scheduler over a bounded-exhaustive family of pipeline configurations and registration histories; brute-force traversal matching oracle on event-pointer identity",
-         "975 (quick) configurations - every reachable behaviour vector of one pipeline with 2..5 nodes, two pipelines x sharing patterns, 3-4 pipelines over 1-3 event types, registration histories incl. no-op removals, removals with nodes and with failing Close, mid-pipeline sinks - are each run under every schedule within the preemption bound and every sync.Map.Range order, with and without cancellation. The recorded node invocations must decompose into exactly one in-order traversal per registered pipeline of the sent type with the exact event pointers and unchanged event contents handed from node to node; under cancellation a pipeline may be absent but a started traversal is complete.",
+         "979 (quick) configurations - every reachable behaviour vector of one pipeline with 2..5 nodes, two pipelines x sharing patterns, 3-4 pipelines over 1-3 event types, registration histories incl. no-op removals, removals with nodes and with failing Close, mid-pipeline sinks - are each run under every schedule within the preemption bound and every sync.Map.Range order, with and without cancellation. The recorded node invocations must decompose into exactly one in-order traversal per registered pipeline of the sent type with the exact event pointers and unchanged event contents handed from node to node; under cancellation a pipeline may be absent but a started traversal is complete.",
          "Recording nodes are harness code (norace logs); bounds per scenario are in the evidence samples; configuration space is the enumerated family, not all of 0..4 x 1..3 x 2..5.",
          "DESIGN.md §3 C01"),
  "C02": ("stateless model checking of Send under a controlled scheduler for outcome-vector x threshold scenarios, plus explicit-state BFS of the threshold API against a reference model",
@@ -23,7 +23,7 @@ CHECKS = {
          "The traversal ends used by the oracle are reconstructed from the nodes' own log (C01 matching).",
          "DESIGN.md §3 C02"),
  "C12": ("stateless model checking under a controlled scheduler with a faithful writer-preferring RWMutex model; deadlock verdict over re-entrancy scenarios",
-         "502 (quick) scenarios - every Broker call incl. its error paths x a node that re-enters Send from Process/Close/Reopen, and the real gated.Filter wired to the same Broker with 0..3 pending groups, x {alone, concurrent writer, concurrent Send, concurrent remover} - are run under every schedule within the preemption bound. Self-deadlock on the Broker lock, reader recursion behind a waiting writer and lock-order inversions are deterministic verdicts with the blocked threads' stacks instead of test timeouts. Three genuine defects are recorded as known findings; any other deadlock still fails the check.",
+         "534 (quick) scenarios - every Broker call incl. its error paths x a node that re-enters Send from Process/Close/Reopen, and the real gated.Filter wired to the same Broker with 0..3 pending groups, x {alone, concurrent writer, concurrent Send, concurrent remover} - are run under every schedule within the preemption bound. Self-deadlock on the Broker lock, reader recursion behind a waiting writer and lock-order inversions are deterministic verdicts with the blocked threads' stacks instead of test timeouts. Three genuine defects are recorded as known findings; any other deadlock still fails the check.",
          "RWMutex model mirrors sync.RWMutex (writer announces, then drains readers; announced writer blocks new readers); termination = every thread finishes in every explored schedule.",
          "DESIGN.md §3 C12"),
  "C05": ("bounded-exhaustive enumeration of RegisterPipeline inputs against the acceptance predicate, plus explicit-state BFS over call histories of the real Broker with a projection-equality oracle after every failing call",
